@@ -1,6 +1,7 @@
 package main
 
 import (
+	"bytes"
 	"fmt"
 	"os"
 	"math/big"
@@ -340,9 +341,13 @@ func (s *appStream) signRelayerTx(r *tr.Rng, o *tr.Op, height int64, seqUsed map
 	timeout := uint64(0)
 	switch c := r.Intn(100); {
 	case c < pick(guardy, 10, 2):
-		opts.Memo, memo, cls = "hi", "hi", cls+"/memo"
+		memo = tr.Pick(r, "hi", "x", "x", "a much longer memo than anybody would need")
+		opts.Memo, cls = memo, cls+fmt.Sprintf("/memo-len=%d", len(memo))
 	case c < pick(guardy, 20, 4):
 		timeout, cls = uint64(height-1), cls+"/timeout=h-1"
+		if r.Chance(35) { // the smallest timeout there is: long expired unless this is block 1
+			timeout, cls = 1, cls+"=1"
+		}
 	case c < pick(guardy, 28, 6):
 		timeout, cls = uint64(height), cls+"/timeout=h"
 	case c < pick(guardy, 34, 8):
@@ -737,14 +742,25 @@ func (s *appStream) genBlock(r *tr.Rng) {
 		s.processed = false
 	}
 	sim.Engine.ResetCalls()
+	headBefore, _, _ := sim.EthHead()
 	resp, ferr := sim.Finalize(proposer, txs, votes, evidence)
 	halt := ferr != nil
-	// what the engine was told while the block was finalised (C09)
+	// what the engine was told while the block was finalised (C09): the block hash, and whether the payload it was
+	// handed (transactions, requests, parent, number, extra data, beacon root) is the one recorded under that hash
 	var eng []string
 	for _, c := range sim.Engine.Calls() {
 		switch c.Method {
 		case appsim.MethodNewPayload:
-			eng = append(eng, fmt.Sprintf("np:%x", c.BlockHash[:]))
+			alt := ""
+			for _, want := range []*goatmod.ExecutionPayload{eb.Payload, &headBefore} {
+				if want != nil && bytes.Equal(want.BlockHash, c.BlockHash[:]) {
+					if !payloadAsTold(want, &c) {
+						alt = "!altered"
+					}
+					break
+				}
+			}
+			eng = append(eng, fmt.Sprintf("np:%x%s", c.BlockHash[:], alt))
 		case appsim.MethodFCU:
 			eng = append(eng, fmt.Sprintf("fcu:%x/%x/%x", c.Head[:], c.Safe[:], c.Finalized[:]))
 		}
@@ -1306,6 +1322,24 @@ func fingerprint(resp *abci.ResponseFinalizeBlock, err error, eng []string) stri
 	sort.Strings(ups)
 	fmt.Fprintf(&sb, " ups=%s eng=%s", strings.Join(ups, ","), strings.Join(eng, ","))
 	return sb.String()
+}
+
+// payloadAsTold: is what newPayload carried the recorded payload?
+func payloadAsTold(want *goatmod.ExecutionPayload, c *appsim.Call) bool {
+	eq := func(a, b [][]byte) bool {
+		if len(a) != len(b) {
+			return false
+		}
+		for i := range a {
+			if !bytes.Equal(a[i], b[i]) {
+				return false
+			}
+		}
+		return true
+	}
+	return bytes.Equal(want.ParentHash, c.ParentHash[:]) && want.BlockNumber == c.Number && bytes.Equal(want.ExtraData, c.ExtraData) &&
+		bytes.Equal(want.FeeRecipient, c.FeeRecipient[:]) && want.Timestamp == c.Timestamp &&
+		bytes.Equal(common.BytesToHash(want.BeaconRoot).Bytes(), c.BeaconRoot[:]) && eq(want.Transactions, c.Txs) && eq(want.Requests, c.Requests)
 }
 
 func engLog(sim *appsim.Sim) []string {
